@@ -21,6 +21,7 @@ type deferred struct {
 	instr *ssa.Defer
 	args  []Value
 	fnv   Value
+	cond  *Node // nil: unconditional; else the deferred call runs only under cond
 }
 
 type State struct {
@@ -349,7 +350,12 @@ func (e *Exec) resolve(ptr Value, T types.Type) Loc {
 	panic(fmt.Sprintf("resolve: unsupported pointer value %T", ptr))
 }
 
-func structTypeOf(p *FieldPtr) types.Type { return p.ST }
+func structTypeOf(p *FieldPtr) types.Type {
+	if p.NT != nil {
+		return p.NT
+	}
+	return p.ST
+}
 
 func (e *Exec) load(s *State, ptr Value, T types.Type) Value {
 	loc := e.resolve(ptr, T)
@@ -562,15 +568,58 @@ func (e *Exec) mergeStates(ss []*State) *State {
 		if len(s.held) != len(out.held) {
 			e.unsupported("lock state differs between merged paths")
 		}
-		if len(s.defers) != len(out.defers) {
-			e.unsupported("defer stack differs between merged paths")
-		} else {
-			for i := range s.defers {
-				if s.defers[i].instr != out.defers[i].instr {
-					e.unsupported("defer stack differs between merged paths")
+	}
+	// defers: union in order; a defer missing on some path becomes conditional
+	{
+		var order []*ssa.Defer
+		seen := map[*ssa.Defer]bool{}
+		var longest *State
+		for _, s := range live {
+			if longest == nil || len(s.defers) > len(longest.defers) {
+				longest = s
+			}
+		}
+		for _, d := range longest.defers {
+			order = append(order, d.instr)
+			seen[d.instr] = true
+		}
+		for _, s := range live {
+			for _, d := range s.defers {
+				if !seen[d.instr] {
+					e.unsupported("defer stacks of merged paths are not prefix-compatible")
 				}
 			}
 		}
+		var merged []deferred
+		for _, di := range order {
+			var conds []*Node
+			all := true
+			var proto deferred
+			for _, s := range live {
+				found := false
+				for _, d := range s.defers {
+					if d.instr == di {
+						found = true
+						proto = d
+						if d.cond != nil {
+							conds = append(conds, And(s.pc, d.cond))
+							all = false
+						} else {
+							conds = append(conds, s.pc)
+						}
+					}
+				}
+				if !found {
+					all = false
+				}
+			}
+			nd := deferred{instr: proto.instr, args: proto.args, fnv: proto.fnv}
+			if !all {
+				nd.cond = Or(conds...)
+			}
+			merged = append(merged, nd)
+		}
+		out.defers = merged
 	}
 	return out
 }
